@@ -2,7 +2,12 @@ import Amshan.Lemmas.GenCodeBase
 import Amshan.GeneratedCodeFcs
 import Amshan.Model.Fcs
 /- Per-property part of the GeneratedCode equivalence lemmas (split so that a change to one translated
-   function only breaks the proofs of the property that function belongs to). -/
+   function only breaks the proofs of the property that function belongs to).
+
+   The proofs are semantic: the generated definition is unfolded and the statement is decided (`grind`: `if`s,
+   Booleans, arithmetic, commutativity of the bit operators), loops are compared step by step
+   (`foldl_step_eq`), the table generator is evaluated by the kernel. -/
+set_option linter.unusedSimpArgs false   -- simp sets are deliberately wider than one spelling of the source needs
 namespace Amshan.GenLemmas
 open Amshan.GenCode Amshan.Gen
 
@@ -12,36 +17,48 @@ open Amshan.GenCode Amshan.Gen
 theorem computeFcsTable_eq : computeFcsTable = fcsTable := by
   set_option maxRecDepth 8192 in decide +kernel
 
+theorem fcsNext_eq (crc byte : Nat) : fcsNext crc byte = Fcs.next crc byte := by
+  unfold fcsNext Fcs.next; gen_decide
 
-theorem fcsNext_eq (crc byte : Nat) : fcsNext crc byte = Fcs.next crc byte := rfl
+theorem fcsChecksum_eq (r : Nat) : fcsChecksum r = Fcs.checksum r := by
+  unfold fcsChecksum Fcs.checksum fcsComplement; gen_decide
 
-theorem fcsChecksum_eq (r : Nat) : fcsChecksum r = Fcs.checksum r := rfl
-
-theorem fcsIsGood_eq (r : Nat) : fcsIsGood r = Fcs.isGood r := rfl
+theorem fcsIsGood_eq (r : Nat) : fcsIsGood r = Fcs.isGood r := by
+  unfold fcsIsGood Fcs.isGood; gen_decide
 
 /-- the model's loop, inside the data, as a fold over the indices -/
 theorem computeLoop_eq_foldl (data : List Nat) (n i fcs : Nat) (h : i + n ≤ data.length) :
-    Fcs.computeLoop data i n fcs =
-      .ok ((List.range' i n).foldl (fun c j => Fcs.next c (data.getD j 0)) fcs) := by
+    Fcs.computeLoop data i n fcs = .ok (Fcs.feed fcs ((List.range' i n).map (fun j => data.getD j 0))) := by
   induction n generalizing i fcs with
   | zero => rfl
   | succ n ih =>
     have hi : i < data.length := by omega
     simp only [Fcs.computeLoop, List.getElem?_eq_getElem hi]
     rw [ih (i + 1) _ (by omega)]
-    simp [List.range'_succ, Fcs.next, List.getD_eq_getElem?_getD, List.getElem?_eq_getElem hi]
+    simp [Fcs.feed, List.range'_succ, Fcs.next, List.getD_eq_getElem?_getD, List.getElem?_eq_getElem hi]
+
+/-- the indices `start .. start + n - 1` as offsets from `start` -/
+theorem range'_eq_map_offset (start n : Nat) : List.range' start n = (List.range' 0 n).map (fun i => i + start) := by
+  rw [List.range'_eq_map_range, ← List.range_eq_range']
+  exact List.map_congr_left (fun i _ => Nat.add_comm _ _)
 
 theorem fcsComputeChecksum_eq (data : List Nat) (start len : Nat) (h : start + len ≤ data.length) :
     Fcs.computeChecksum data start len = .ok (fcsComputeChecksum data start len) := by
   unfold Fcs.computeChecksum
   rw [computeLoop_eq_foldl data len start fcsInit h]
-  have : fcsComputeChecksum data start len =
-      (List.range' start len).foldl (fun c j => Fcs.next c (data.getD j 0)) fcsInit ^^^ 65535 := by
+  have key : fcsComputeChecksum data start len
+      = Fcs.feed fcsInit ((List.range' start len).map (fun j => data.getD j 0)) ^^^ 0xFFFF := by
     unfold fcsComputeChecksum
-    show Prod.fst (Id.run (forIn _ _ _)) ^^^ _ = _
-    rw [forIn_range_proj Prod.fst (fun c j => Fcs.next c (data.getD j 0))]
-    · simp
-    · intro i s; exact ⟨_, rfl, rfl⟩
-  rw [this]
+    try simp only [Nat.add_sub_cancel, Nat.add_sub_cancel_left]
+    first
+    | -- the source loops over the indices start .. start + length - 1
+      (rw [foldl_step_eq (g := fun c j => Fcs.next c (data.getD j 0))]
+       · simp only [Fcs.feed, List.foldl_map] <;> gen_decide
+       · intro c j; (try simp only [fcsNext_eq]) <;> (try unfold Fcs.next) <;> gen_decide)
+    | -- the source loops over the offsets 0 .. length - 1
+      (rw [foldl_step_eq (g := fun c i => Fcs.next c (data.getD (i + start) 0))]
+       · simp only [Fcs.feed, List.foldl_map, range'_eq_map_offset start len, List.map_map, Function.comp_def] <;> gen_decide
+       · intro c j; (try simp only [fcsNext_eq]) <;> (try unfold Fcs.next) <;> gen_decide)
+  rw [key]
 
 end Amshan.GenLemmas
